@@ -134,6 +134,7 @@ type State struct {
 	clock  *Term
 	old    *State // entry snapshot of the root function
 	evEpoch string
+	epochClock *Term
 	heapEpoch string
 	dead   bool
 	infeasibleChecked bool
@@ -142,7 +143,7 @@ type State struct {
 func (s *State) top() *Frame { return s.frames[len(s.frames)-1] }
 
 func (s *State) clone() *State {
-	n := &State{pc: s.pc, alloc: s.alloc, clock: s.clock, old: s.old, evEpoch: s.evEpoch, heapEpoch: s.heapEpoch, dead: s.dead}
+	n := &State{pc: s.pc, alloc: s.alloc, clock: s.clock, old: s.old, evEpoch: s.evEpoch, epochClock: s.epochClock, heapEpoch: s.heapEpoch, dead: s.dead}
 	n.frames = make([]*Frame, len(s.frames))
 	for i, f := range s.frames {
 		nf := &Frame{fn: f.fn, root: f.root, env: make(map[ssa.Value]Value, len(f.env)), origin: make(map[ssa.Value]*PtrV, len(f.origin)),
@@ -226,6 +227,8 @@ type Exec struct {
 	libUsed  map[string]bool
 	outside  string // non-empty: function left the supported subset
 	pureCellBase int
+	trivialSeen map[string]bool
+	loopKinds map[string]bool
 	pureHeaps map[string]*Term
 	deadline time.Time
 	steps int
@@ -277,11 +280,8 @@ func (x *Exec) oblige(st *State, kind, label string, props []string, goal *Term,
 	if st.dead {
 		return
 	}
-	if goal.Kind == KBool && goal.B {
-		return
-	}
 	if x.pureMode {
-		if kind == "safety" {
+		if kind == "safety" && !(goal.Kind == KBool && goal.B) {
 			pcs := append(st.pc.list(), Not(goal))
 			x.pureRets = append(x.pureRets, pureRet{pc: pcs, panics: true})
 			st.assume(goal)
@@ -296,12 +296,23 @@ func (x *Exec) oblige(st *State, kind, label string, props []string, goal *Term,
 			st.assume(goal)
 		}
 	}()
-	goal = simplifyUnder(goal, st.pc)
-	if goal.Kind == KBool && goal.B {
-		return
+	if !(goal.Kind == KBool && goal.B) {
+		goal = simplifyUnder(goal, st.pc)
 	}
 	name := x.rootKey + "#" + kind + "#" + label
-	o := &Obl{Name: name, Func: x.rootKey, Kind: kind, Label: label, Props: props, Assumes: st.pc.list(), Goal: goal}
+	o := &Obl{Name: name, Func: x.rootKey, Kind: kind, Label: label, Props: props, Goal: goal}
+	if goal.Kind == KBool && goal.B {
+		// discharged syntactically: kept (without its path condition) so that the ledger knows the name
+		if x.trivialSeen == nil {
+			x.trivialSeen = map[string]bool{}
+		}
+		if x.trivialSeen[name] {
+			return
+		}
+		x.trivialSeen[name] = true
+	} else {
+		o.Assumes = st.pc.list()
+	}
 	if pos.IsValid() {
 		p := x.w.prog.Fset.Position(pos)
 		o.Pos = fmt.Sprintf("%s:%d", shortFile(p.Filename), p.Line)
@@ -461,6 +472,14 @@ func (x *Exec) typeFacts(v *Term, t types.Type, depth int) []*Term {
 		if strings.HasPrefix(v.Sort, "Sl_") {
 			out = append(out, Cmp(">=", slLen(v), IntT(0)))
 			out = append(out, Implies(slNil(v), Eq(slLen(v), IntT(0))))
+			if _, inner := u.Elem().Underlying().(*types.Slice); inner && depth < 2 {
+				// every element slice is itself well-formed
+				es := elemSortOfSlice(x.w, v.Sort)
+				x.fresh++
+				k := VarT(fmt.Sprintf("k!t%d", x.fresh), "Int")
+				el := App("select", es, slArr(v), k)
+				out = append(out, Quant("forall", []*Term{k}, Cmp(">=", Sel(es+"_len", el), IntT(0))))
+			}
 		}
 	case *types.Struct:
 		if depth > 3 {
@@ -1409,7 +1428,12 @@ func (x *Exec) handleLoopHead(st *State, fr *Frame, lp *Loop, b, pred *ssa.Basic
 			}
 		}
 	}
-	if unroll || (len(clauses) == 0 && x.concreteLoop(st, fr, lp, b, pred)) {
+	userClauses := len(clauses)
+	if invs, _ := x.w.recvInvFor(fr.fn); len(invs) > 0 {
+		// receiver invariants hold at every loop head of a method
+		clauses = append(clauses, invs...)
+	}
+	if unroll || (userClauses == 0 && x.concreteLoop(st, fr, lp, b, pred)) {
 		fr.iter[b]++
 		if fr.iter[b] > unrollCap {
 			x.outside = "unroll cap exceeded in " + fr.fn.Name()
@@ -1694,7 +1718,14 @@ func (x *Exec) havocLoop(st *State, fr *Frame, lp *Loop, b *ssa.BasicBlock) {
 		fr.env[phi] = x.havocLike(fr.env[phi], phiName(phi), phi.Type())
 	}
 	eff := x.w.loopEffects(fr.fn, lp)
+	kinds := map[string]bool{}
+	if x.w.eventKindsIn(fr.fn, lp.blocks, 0, kinds) {
+		x.loopKinds = kinds
+	} else {
+		x.loopKinds = nil
+	}
 	x.applyHavoc(st, fr, eff, "loop")
+	x.loopKinds = nil
 }
 
 func (x *Exec) havocLike(old Value, base string, t types.Type) Value {
